@@ -289,6 +289,21 @@ def mon_c10(run, case, stmts):
                 run.v("C10", "update_recorded_under_completed_context", site,
                       f"{b.path_of.get(u['Id'], u.get('Name'))}: {u['Action']} handed over (clk {h['clk']}) after ancestor {b.path_of.get(a)} was handed its completion record (clk {done_at[a][0]}) and it reached the backend after that record")
                 break
+    # arrival order at the backend: the pipeline is first-in first-out, so whatever is delivered after a context's
+    # completion record was handed over after it (an update overtaken by the completion record is "recorded under a
+    # completed context" just the same)
+    comp_n: dict = {}
+    for e in b.log:
+        u = e["upd"]
+        if u["Type"] == "CONTEXT" and u["Action"] in ("SUCCEED", "FAIL") and u["Id"] not in comp_n:
+            comp_n[u["Id"]] = (e["n"], e["inv"])
+    for e in b.log:
+        u = e["upd"]
+        for a in chain(u):
+            if a in comp_n and comp_n[a][1] == e["inv"] and e["n"] > comp_n[a][0]:
+                run.v("C10", "descendant_record_arrived_after_completion_record", f"{u['Type']}:{u['Action']}",
+                      f"{b.path_of.get(u['Id'], u.get('Name'))}: {u['Action']} reached the backend (arrival #{e['n']}) after the completion record of its ancestor {b.path_of.get(a)} (arrival #{comp_n[a][0]}) in invocation {e['inv']}")
+                break
     # user functions entered in an orphaned branch for an operation first encountered after the completion:
     # the operation's first hand-over of this invocation came after the ancestor's completion and was let through
     first_ho: dict = {}
